@@ -319,7 +319,10 @@ def run(tier, seed, n=None):
     disagreements = []
     failures = []
     dist = {"streams": {}, "out_of_scope": 0, "crash": 0, "paths": {}, "errors": {}, "assumption_violations": 0,
-            "oracle_failures": {}}
+            "oracle_failures": {},
+            # `goodB` (the executable hypothesis of the *_pandas theorems, sound by goodB_sound) on alpha(series)
+            "theorem_hypotheses": {"good": 0, "not_good": 0, "failing_conjuncts": {}, "good_nontrivial": 0,
+                                   "finding_on_good_input": 0}}
     nontriv = set()
     for i, o in enumerate(obs):
         st = o["recipe"].get("stream", "?")
@@ -337,10 +340,25 @@ def run(tier, seed, n=None):
         d = compare(o, answers[i])
         if d:
             disagreements.append({"kind": "pandas", "recipe": o["recipe"], "diffs": d[:4]})
+        gd = answers[i].get("good", {})
+        th = dist["theorem_hypotheses"]
+        if gd.get("good"):
+            th["good"] += 1
+        else:
+            th["not_good"] += 1
+            for k, v in gd.items():
+                if k != "good" and not v:
+                    th["failing_conjuncts"][k] = th["failing_conjuncts"].get(k, 0) + 1
         for f in oracles_pandas.oracle_failures(o, orders, col_obs_equiv):
             # a failure can only be a *known* finding where the model (which mirrors the known defects) agrees
             # with the code on this very input
             f["known_eligible"] = not d
+            if gd.get("good") and f["property"] in ("C02", "C03", "C04", "C16") and not d:
+                # the theorems C0x_pandas apply to this input (Good holds, model == code): the property cannot
+                # fail here, so this can never be excused as a known finding
+                f["known_eligible"] = False
+                f["theorem_applies"] = True
+                th["finding_on_good_input"] += 1
             failures.append(f)
             k = f["property"] + " " + f["signature"]
             dist["oracle_failures"][k] = dist["oracle_failures"].get(k, 0) + 1
@@ -350,6 +368,8 @@ def run(tier, seed, n=None):
             dist["paths"][key] = dist["paths"].get(key, 0) + 1
             if len(p["path"]) >= 2:
                 nontriv.add(canon(o["col"]))
+                if gd.get("good"):
+                    th["good_nontrivial"] += 1
         else:
             dist["errors"][p["raises"]] = dist["errors"].get(p["raises"], 0) + 1
             nontriv.add(canon(o["col"]))
